@@ -268,7 +268,9 @@ func (p BitList) At(i int) bool {
 		return false
 	}
 	bit := BitOffset(i)
-	addr := p.off.addOffset(bit.offset())
+	// The list was bounds-checked when it was read or allocated; the 1<<19
+	// limit of addOffset only applies to struct data sections.
+	addr := p.off.addSizeUnchecked(Size(bit.offset()))
 	return p.seg.readUint8(addr)&bit.mask() != 0
 }
 
@@ -283,7 +285,9 @@ func (p BitList) Set(i int, v bool) {
 		panic("BitList.Set called on a non-bit list")
 	}
 	bit := BitOffset(i)
-	addr := p.off.addOffset(bit.offset())
+	// The list was bounds-checked when it was read or allocated; the 1<<19
+	// limit of addOffset only applies to struct data sections.
+	addr := p.off.addSizeUnchecked(Size(bit.offset()))
 	b := p.seg.slice(addr, 1)
 	if v {
 		b[0] |= bit.mask()
